@@ -153,4 +153,5 @@ class DiscParallelLinearization(CallableParallelExecution[StrKeyMapping, _Worker
                     disc.io.data = output.io_data
                     disc.jac = output.jacobian
 
-        return [out.jacobian for out in ordered_outputs if out is not None or None]
+        # Keep one slot per input: the Jacobian, or None when the task failed.
+        return [None if out is None else out.jacobian for out in ordered_outputs]
